@@ -359,6 +359,44 @@ func c01(r *Report, s *Sem) {
 			r.Check(R3, "kind "+k+" / unique tag", p.pos(disc.Pos()), ok,
 				fmt.Sprintf("reachable tags %v, constructed types %v; want exactly the tag that constructs %s", tl, mapTags(tl, tagType), k))
 		}
+		// converse: a kind's tag is returned only when the members that identify it are present, and an envelope with
+		// the identifying members of a data kind is never classified as a session
+		identifying := map[string][]string{
+			"RequestCommand":  {"Method", "URI"},
+			"ResponseCommand": {"Method", "Status"},
+			"Notification":    {"Event"},
+			"Message":         {"Content"},
+			"Session":         {"State"},
+		}
+		tagOf := map[string]string{}
+		for tag, typ := range tagType {
+			tagOf[typ] = tag
+		}
+		for _, k := range kinds {
+			for _, member := range identifying[k] {
+				abs := map[string]int{}
+				for _, wf := range flatFields(p.Type("rawEnvelope")) {
+					abs[wf.Name()] = 2
+				}
+				abs[member] = 0
+				tags := interpretDiscriminator(disc, abs)
+				r.Check(R3, "kind "+k+" / tag only with its identifying member "+member, p.pos(disc.Pos()), !tags[tagOf[k]],
+					"with "+member+" absent the discriminator can still answer "+tagOf[k]+": the typed envelope then carries a nil/zero "+member+" that code relying on the kind dereferences")
+			}
+			if k == "Session" {
+				continue
+			}
+			abs := map[string]int{}
+			for _, wf := range flatFields(p.Type("rawEnvelope")) {
+				abs[wf.Name()] = 2
+			}
+			for _, member := range identifying[k] {
+				abs[member] = 1
+			}
+			tags := interpretDiscriminator(disc, abs)
+			r.Check(R3, "kind "+k+" / never classified as a session", p.pos(disc.Pos()), !tags[tagOf["Session"]],
+				"an envelope carrying the identifying members of "+k+" (plus a state member) is classified as a session: its data is dropped and the handshake accepts it as the expected session envelope")
+		}
 		for tag, typ := range tagType {
 			found := false
 			for _, k := range kinds {
